@@ -1,8 +1,121 @@
-import NasdaqModel.Model.Monitor
+import NasdaqModel.Lemmas.HeartbeatLemmas
+/-
+C09 — peer silence closes the session in bounded time; a live peer is never timed out; any inbound byte counts.
+Only property theorems and their non-vacuity examples live here; the invariants are in Lemmas/HeartbeatLemmas.lean.
+
+Reading guide (see also Props/C08.lean).  `s.recvs` are the `data_received` calls (newest first) with their instant and
+what the bytes were (`hb` a heartbeat packet, `msg` another message, `frag` part of a frame).  `s.closed`, `s.closeT`,
+`s.closedByMon`: the session is closed, when, and whether it was the remote monitor that called `close()`.
+A monitor tick at instant `T` is processed before an arrival stamped `T` (see Model/Monitor.lean).
+All theorems hold for every event list (any concurrent local activity, any application close), every configuration
+with intervals ≥ 1 grid unit, every role, and — where a tolerance appears — every tolerated-miss count `n`.
+-/
 namespace NasdaqModel.Props.C09
 open NasdaqModel.Monitor
 
+def wfCfg (c : Cfg) : Bool := decide (1 ≤ c.clientI) && decide (1 ≤ c.serverI)
+
+example : wfCfg ⟨8, 16⟩ = true := by decide
+
+private theorem peer_pos (role : Role) (c : Cfg) (h : wfCfg c = true) : 1 ≤ peerInterval role c := by
+  simp [wfCfg] at h
+  cases role <;> simp [peerInterval] <;> omega
+
+/-- every call site of `start_heartbeats` gives the remote monitor the interval of the *peer's* role
+    (server interval on client / FIX sessions, client interval on a server session) -/
 theorem C09_role (role : Role) (c : Cfg) : (sessionIntervals role c).2 = peerInterval role c := by
   cases role <;> rfl
+
+private theorem login_eq (role : Role) (c : Cfg) :
+    login role c = startWith (ownInterval role c) (peerInterval role c) 1 1 := by
+  cases role <;> rfl
+
+/-- **C09_silence_closes** (any tolerance `n`, `N = max n 1`).  If no byte arrives in `(t, t + (N+1)·P]` and the
+    history reaches `t + (N+1)·P`, the session is closed and was closed no later than `t + (N+1)·P`. -/
+theorem C09_silence_closes_generic (l r tl n : Nat) (hr : 1 ≤ r) (evs : List Ev) (t : Nat)
+    (hlong : t + (max n 1 + 1) * r ≤ ((startWith l r tl n).run evs).now)
+    (hsilent : ∀ x ∈ ((startWith l r tl n).run evs).recvs, ¬ (t < x.1 ∧ x.1 ≤ t + (max n 1 + 1) * r)) :
+    ((startWith l r tl n).run evs).closed = true ∧ ((startWith l r tl n).run evs).closeT ≤ t + (max n 1 + 1) * r := by
+  apply (invR_run l r tl n hr evs).silence t hlong
+  rw [recvIn_false_iff]
+  intro x hx hab
+  exact hsilent x hx ⟨by omega, by omega⟩
+
+/-- **C09_silence_closes** for sessions (`n = 1`): no byte from the peer during `(t, t + 2·P]`, `P` the interval of the
+    peer's role ⇒ closed by `t + 2·P` -/
+theorem C09_silence_closes (role : Role) (c : Cfg) (hc : wfCfg c = true) (evs : List Ev) (t : Nat)
+    (hlong : t + 2 * peerInterval role c ≤ ((login role c).run evs).now)
+    (hsilent : ∀ x ∈ ((login role c).run evs).recvs, ¬ (t < x.1 ∧ x.1 ≤ t + 2 * peerInterval role c)) :
+    ((login role c).run evs).closed = true ∧ ((login role c).run evs).closeT ≤ t + 2 * peerInterval role c := by
+  rw [login_eq] at hlong hsilent ⊢
+  have h := C09_silence_closes_generic (ownInterval role c) (peerInterval role c) 1 1 (peer_pos role c hc) evs t
+  simp only [Nat.max_self] at h
+  exact h hlong hsilent
+
+set_option maxRecDepth 100000 in
+/-- non-vacuity: a client (peer interval 4) that hears nothing is closed at 8 = 0 + 2·4 -/
+example : ((login .soupClient ⟨100, 4⟩).run (List.replicate 10 .adv)).closeT = 8 := by decide
+
+set_option maxRecDepth 100000 in
+/-- non-vacuity with arrivals: a FIX session (peer interval 4) hears bytes at 1 and 3, then nothing: the hypotheses of
+    `C09_silence_closes` hold for t = 3 (history of 12 units, no arrival in (3, 11]) and the session closed at 8 ≤ 11 -/
+example :
+    let s := (login .fix ⟨100, 4⟩).run ([.adv, .recv .msg, .adv, .adv, .recv .frag] ++ List.replicate 9 .adv)
+    3 + 2 * peerInterval .fix ⟨100, 4⟩ ≤ s.now ∧ (s.recvs.all fun x => !(decide (3 < x.1) && decide (x.1 ≤ 11))) = true ∧
+      s.closed = true ∧ s.closeT = 8 ∧ s.closedByMon = true := by decide
+
+/-- **C09_trip_has_silent_period.**  Whenever the remote monitor has closed the session (any tolerance), the period
+    `[c - P, c)` between its last two ticks contains no arrival at all. -/
+theorem C09_trip_has_silent_period (l r tl n : Nat) (hr : 1 ≤ r) (evs : List Ev)
+    (hclosed : ((startWith l r tl n).run evs).closed = true) (hmon : ((startWith l r tl n).run evs).closedByMon = true) :
+    r ≤ ((startWith l r tl n).run evs).closeT ∧ ((startWith l r tl n).run evs).closeT ≤ ((startWith l r tl n).run evs).now ∧
+      ∀ x ∈ ((startWith l r tl n).run evs).recvs,
+        ¬ (((startWith l r tl n).run evs).closeT - r ≤ x.1 ∧ x.1 < ((startWith l r tl n).run evs).closeT) := by
+  have h := invQ_run l r tl n hr evs
+  obtain ⟨h1, h2⟩ := h.witness hclosed hmon
+  exact ⟨h1, h.closeT_le hclosed, (recvIn_false_iff _ _ _).mp h2⟩
+
+/-- **C09_live_never_dropped** (any tolerance).  If every window `[τ, τ + P)` of the history contains a byte from the
+    peer, the remote monitor never closes the session — however long it runs and whatever else happens. -/
+theorem C09_live_never_dropped_generic (l r tl n : Nat) (hr : 1 ≤ r) (evs : List Ev)
+    (hlive : ∀ τ, τ + r ≤ ((startWith l r tl n).run evs).now →
+      ∃ x ∈ ((startWith l r tl n).run evs).recvs, τ ≤ x.1 ∧ x.1 < τ + r) :
+    ¬ (((startWith l r tl n).run evs).closed = true ∧ ((startWith l r tl n).run evs).closedByMon = true) := by
+  rintro ⟨hc, hm⟩
+  obtain ⟨h1, h2, h3⟩ := C09_trip_has_silent_period l r tl n hr evs hc hm
+  obtain ⟨x, hx, ha, hb⟩ := hlive (((startWith l r tl n).run evs).closeT - r) (by omega)
+  exact h3 x hx ⟨ha, by omega⟩
+
+theorem C09_live_never_dropped (role : Role) (c : Cfg) (hc : wfCfg c = true) (evs : List Ev)
+    (hlive : ∀ τ, τ + peerInterval role c ≤ ((login role c).run evs).now →
+      ∃ x ∈ ((login role c).run evs).recvs, τ ≤ x.1 ∧ x.1 < τ + peerInterval role c) :
+    ¬ (((login role c).run evs).closed = true ∧ ((login role c).run evs).closedByMon = true) := by
+  rw [login_eq] at hlive ⊢
+  exact C09_live_never_dropped_generic _ _ 1 1 (peer_pos role c hc) evs hlive
+
+set_option maxRecDepth 100000 in
+/-- non-vacuity: a server (peer interval 4) whose client delivers one byte per period stays open for 40 units -/
+example : ((login .soupServer ⟨4, 100⟩).run ((List.replicate 10 [Ev.adv, .recv .frag, .adv, .adv, .adv]).flatten)).closed = false := by
+  decide
+
+/-- **C09_any_byte_counts.**  Replacing every arrival by any other kind of bytes (heartbeat packet, other message,
+    fragment of a frame) changes nothing but the recorded kinds: same writes, same close, same monitor states. -/
+theorem C09_any_byte_counts (s : Sess) (evs evs' : List Ev) (h : evs.map Ev.eraseKind = evs'.map Ev.eraseKind) :
+    (s.run evs).forgetKinds = (s.run evs').forgetKinds := by
+  rw [forget_run, forget_run, h]
+
+/-- in particular the close instant and the writes do not depend on what the bytes were -/
+theorem C09_any_byte_counts_obs (s : Sess) (evs evs' : List Ev) (h : evs.map Ev.eraseKind = evs'.map Ev.eraseKind) :
+    (s.run evs).closed = (s.run evs').closed ∧ (s.run evs).closeT = (s.run evs').closeT ∧
+      (s.run evs).closedByMon = (s.run evs').closedByMon ∧ (s.run evs).writes = (s.run evs').writes ∧
+      (s.run evs).now = (s.run evs').now := by
+  have e := C09_any_byte_counts s evs evs' h
+  exact ⟨congrArg (fun x => x.closed) e, congrArg (fun x => x.closeT) e, congrArg (fun x => x.closedByMon) e,
+    congrArg (fun x => x.writes) e, congrArg (fun x => x.now) e⟩
+
+/-- **C09_tol0_eq_tol1.**  A remote monitor that tolerates 0 missed heartbeats behaves exactly like one that tolerates 1. -/
+theorem C09_tol0_eq_tol1 (l r tl : Nat) (evs : List Ev) :
+    ((startWith l r tl 0).run evs).withTolR 1 = (startWith l r tl 1).run evs := by
+  rw [tol01_run evs _ rfl]; rfl
 
 end NasdaqModel.Props.C09
